@@ -434,7 +434,16 @@ def run (lines : Array String) : IO Report := do
               -- that shorter range; cancelled before its first file it changes nothing
               let stopped := ((obs.splitOn " ").findSome? fun w => if w.startsWith "stopped=" then (w.drop 8).toNat? else none).getD (e + 1)
               let e := if stopped ≤ e then stopped - 1 else e
-              let (b', stats) := if stopped ≤ s then (b, ({} : Store.GcStats)) else Store.gcRun hash st.scfg b s e
+              -- (cancelled before its first file the pass still chooses its destination, opens the writer on it — which
+              --  creates the file if an earlier pass had removed it — and ends the writing: `gcRun` over no file at all)
+              --  When the destination is the first source itself (rewrite in place) nothing has been written and the file
+              --  keeps every byte: `endGCWriting` removes it only if its size is 0.
+              let (b', stats) := if stopped ≤ s then
+                  (if Store.gcDst st.scfg b s == s then (b, ({} : Store.GcStats))
+                   else
+                     let s0 := Store.gcBegin b (Store.gcDst st.scfg b s) s {}
+                     (s0.endWriting, s0.stats))
+                else Store.gcRun hash st.scfg b s e
               let m := s!"before={stats.numBefore} released={stats.numReleased} sizebefore={stats.sizeBefore} sizereleased={stats.sizeReleased}"
               if !(obs.endsWith m) then diffIf st.groups.isEmpty rep ln "model" s!"case={cid} gc stats: model={m} impl={obs.take 160}"
               -- model-internal tie: the concrete pass lays the records out as  before ++ kept ++ after
